@@ -249,7 +249,7 @@ def join_blocks(tier, heavy=False):
                 ('2key-full', POOL2_FULL, 1, 2, KINDS2, 'rotate-kind'),
             ]
         return [
-            ('1key', POOL1, 3, 3, [['int']], 3),
+            ('1key', POOL1, 3, 3, [['int']], 2),
             ('1key-typed', POOL1, 3, 3, KINDS1[1:], 1),
             ('2key-pool4', POOL2_4, 3, 3, [['int', 'int']], 1),
             ('2key-full', POOL2_FULL, 2, 2, KINDS2, 'rotate-kind'),
@@ -458,13 +458,14 @@ def agg_blocks(tier, heavy=False):
             return [
                 ('1key', 1, POOL1, 0, 3, 'full+rot'),
                 ('1key-4rows', 1, POOL1, 4, 4, 'rot'),
-                ('2key-pool5', 2, POOL2_5, 0, 3, 'full'),
+                ('2key-pool4', 2, POOL2_4, 0, 3, 'full'),
                 ('2key-full', 2, POOL2_FULL, 0, 2, 'rot'),
             ]
         return [
-            ('1key', 1, POOL1, 0, 4, 'full+rot'),
+            ('1key', 1, POOL1, 0, 3, 'full+rot'),
+            ('1key-4rows', 1, POOL1, 4, 4, 'rot'),
             ('1key-subsets', 1, POOL1, 0, 2, 'subsets-light'),
-            ('2key-pool5', 2, POOL2_5, 0, 3, 'full'),
+            ('2key-pool4', 2, POOL2_4, 0, 3, 'full'),
             ('2key-full', 2, POOL2_FULL, 0, 2, 'full+rot'),
         ]
     if heavy:
